@@ -58,6 +58,11 @@ def prerequisite_collection(ctx, o, ps: PassShape):
     pt['sources'] = srcs
     pt['iter'] = it
     pt['has_bound'] = any(isinstance(a, ast.Name) and a.id == ps.bound for a in pt['args'])
+    if srcs['unknown'] and srcs['filtered']:
+        # a filter was positively identified: that is a finding whatever else in the collection stays unread
+        for x in srcs['filtered']:
+            o.refute(ps.f, pt['stmt'], x, "a filtered subset of the dependencies bounds the task")
+        return pt
     if srcs['unknown']:
         o.undecided(ps.f, pt['stmt'], srcs['unknown'][0], "dependency collection built in an idiom the rule does not recognise")
         return pt
